@@ -492,6 +492,23 @@ def m_split_off(c):
     c.ret(Arr(tail, arr.elem, None, arr.container), extras=((("len",), tl),))
 
 
+def through_equalities(st, form):
+    """[form] plus the same fact restated through each 2/3-term equality that defines one of its variables (x == y + k): a fact about a
+    temporary (`marker + 1` held in a temp) is then also recorded about the variables it was computed from, and survives the temp"""
+    out = [form]
+    for v, cv in list(form.terms.items()):
+        for e in st.cons.eq:
+            ce = e.terms.get(v)
+            if ce in (1, -1) and 2 <= len(e.terms) <= 3:
+                # v = -(e - ce*v)/ce
+                rest = e - LinForm({v: ce}, 0)
+                repl = rest.scale(-1) if ce == 1 else rest
+                f2 = form.subst(v, repl)
+                if f2 not in out and not f2.is_const():
+                    out.append(f2)
+    return out[:4]
+
+
 @model("std::collections::VecDeque::get", "core::slice::get")
 def m_get(c):
     arr, loc = _vec_arg(c)
@@ -507,7 +524,8 @@ def m_get(c):
         s0 = c.fork()
         try:
             if il is not None and l is not None:
-                s0.add_le(l - il)
+                for f in through_equalities(s0, l - il):
+                    s0.add_le(f)
             c.ret(opt_none(), st=s0)
         except Infeasible:
             pass
@@ -515,7 +533,8 @@ def m_get(c):
         s1 = c.st
         try:
             if il is not None and l is not None:
-                s1.add_le(il - l + 1)
+                for f in through_equalities(s1, il - l + 1):
+                    s1.add_le(f)
             cell = new_tmp(c, s1, elem, "get")
             c.ret(opt_some(Ref(cell, ())), st=s1)
         except Infeasible:
